@@ -5,11 +5,16 @@ package blb_test
 // every RPC routed through the deterministic scheduler of pkg/verifcluster (sources: /verif/go/cluster).
 
 import (
+	"bufio"
+	"encoding/json"
 	"flag"
 	"fmt"
 	"os"
+	"os/exec"
 	"path/filepath"
 	"runtime"
+	"strconv"
+	"strings"
 	"testing"
 
 	vc "github.com/westerndigitalcorporation/blb/pkg/verifcluster"
@@ -99,7 +104,14 @@ func c01Case(t *testing.T, root *vw.Rng, ci int, tr *vw.Trace) {
 		}
 	}
 	if acked > 0 && failed > 0 {
-		vw.Distinct(fmt.Sprintf("%d/%d/%d/%d", repl, nTS, acked, failed))
+		fp := fmt.Sprintf("%d/%d/%d/%d", repl, nTS, acked, failed)
+		vw.Distinct(fp)
+		if os.Getenv("VERIF_CHUNK") != "" {
+			if f, err := os.OpenFile(filepath.Join(vw.OutDir(), "distinct.txt"), os.O_APPEND|os.O_CREATE|os.O_WRONLY, 0o644); err == nil {
+				fmt.Fprintln(f, fp)
+				f.Close()
+			}
+		}
 	}
 	d.WriteTrace(tr)
 	if ci < 4 {
@@ -283,6 +295,9 @@ func TestVerifC01(t *testing.T) {
 	tr := vw.OpenTrace("C01.trace")
 	defer tr.Close()
 	defer vw.Finish("C01")
+	if os.Getenv("VERIF_CHUNK") != "" {
+		goto random
+	}
 	if vw.CaseSelected("d0") {
 		c01Directed(root, tr, "d0", false)
 	}
@@ -295,11 +310,93 @@ func TestVerifC01(t *testing.T) {
 	if vw.CaseSelected("d3") {
 		c01DirectedCrashPull(root, tr, "d3")
 	}
-	n := vw.Scale(40, 2000)
-	for ci := 0; ci < n; ci++ {
+random:
+	n := vw.Scale(40, 1000)
+	lo, hi := 0, n
+	if c := os.Getenv("VERIF_CHUNK"); c != "" {
+		// child process of a thorough run: one chunk of cases (goroutines of finished cases idle forever
+		// and make every quiescence scan slower, so long runs are cut into processes)
+		k, _ := strconv.Atoi(c)
+		lo, hi = k*c01Chunk, (k+1)*c01Chunk
+		if hi > n {
+			hi = n
+		}
+	} else if vw.Thorough() && os.Getenv("VERIF_CASES") == "" {
+		c01Parent(t, tr, n)
+		return
+	}
+	for ci := lo; ci < hi; ci++ {
 		if !vw.CaseSelected(fmt.Sprint(ci)) {
 			continue
 		}
 		c01Case(t, root, ci, tr)
+	}
+}
+
+const c01Chunk = 50
+
+// c01Parent runs the random cases of a thorough run in child processes and merges their output.
+func c01Parent(t *testing.T, tr *vw.Trace, n int) {
+	for k := 0; k*c01Chunk < n; k++ {
+		sub := filepath.Join(vw.OutDir(), fmt.Sprintf("chunk%d", k))
+		os.MkdirAll(sub, 0o755)
+		cmd := exec.Command(os.Args[0], "-test.run=TestVerifC01$", "-test.timeout=1800s")
+		cmd.Env = append(os.Environ(), "VERIF_CHUNK="+fmt.Sprint(k), "VERIF_OUT="+sub)
+		if out, err := cmd.CombinedOutput(); err != nil {
+			t.Fatalf("chunk %d failed: %v\n%s", k, err, out)
+		}
+		// traces
+		f, err := os.Open(filepath.Join(sub, "C01.trace"))
+		if err != nil {
+			t.Fatalf("chunk %d: %v", k, err)
+		}
+		sc := bufio.NewScanner(f)
+		sc.Buffer(make([]byte, 1<<20), 1<<26)
+		for sc.Scan() {
+			line := sc.Text()
+			if strings.HasPrefix(line, "# case ") {
+				tr.Case(strings.Fields(line)[2])
+				continue
+			}
+			if len(line) == 0 {
+				continue
+			}
+			var xs []int64
+			for _, w := range strings.Fields(line[1:]) {
+				v, _ := strconv.ParseInt(w, 10, 64)
+				xs = append(xs, v)
+			}
+			if line[0] == '>' {
+				tr.Op(xs...)
+			} else if line[0] == '<' {
+				tr.Obs(xs...)
+			}
+		}
+		f.Close()
+		// results
+		var res struct {
+			Stats      map[string]int64 `json:"stats"`
+			Samples    []string         `json:"samples"`
+			Violations []vw.Violation   `json:"violations"`
+		}
+		if b, err := os.ReadFile(filepath.Join(sub, "C01.result.json")); err == nil && json.Unmarshal(b, &res) == nil {
+			for k2, v := range res.Stats {
+				if k2 != "directed" {
+					vw.Stat(k2, v)
+				}
+			}
+			for _, s := range res.Samples {
+				vw.Sample(s)
+			}
+			for _, v := range res.Violations {
+				vw.Report(v)
+			}
+		}
+		if b, err := os.ReadFile(filepath.Join(sub, "distinct.txt")); err == nil {
+			for _, fp := range strings.Fields(string(b)) {
+				vw.Distinct(fp)
+			}
+		}
+		os.RemoveAll(filepath.Join(sub, "glog"))
 	}
 }
